@@ -102,6 +102,52 @@ def ordering_lemma(cfg):
 Lemma("C20", "ordering", ordering_lemma, "semantic-version precedence coincides with zero-padded element-wise comparison of the lists")
 
 
+def ordering_induction(cfg):
+    """ANY number of numeric fields, by induction on the number k of numeric fields (k >= 1; same k on both sides):
+         base   k = 1: the nine form pairs of `ordering` above (fields=1/...).
+         step   PREC_{k+1}(r::v, r'::w) == (r < r' or (r == r' and PREC_k(v, w)))      [unfolding of the statement's definition]
+                ZLEX(r::L(v), r'::L(w))  == (r < r' or (r == r' and ZLEX(L(v), L(w))))  [unfolding of zero-padded comparison]
+                so  PREC_k == ZLEX on the tails  implies  PREC_{k+1} == ZLEX on the whole lists.
+       The two unfolding identities hold by the recursive definitions; they are additionally CHECKED here against the executable encodings
+       _prec_lt / _zlex_lt for k = 1..5 and every form pair, and the step itself is discharged with the tails abstracted to propositions."""
+    out = []
+    r0, r1 = z3.Int("r_head"), z3.Int("r_head_")
+    A, Bp = z3.Bool("PREC_tail"), z3.Bool("ZLEX_tail")
+    s = z3.Solver()
+    s.add(A == Bp)
+    s.add(z3.Not(z3.Or(r0 < r1, z3.And(r0 == r1, A)) == z3.Or(r0 < r1, z3.And(r0 == r1, Bp))))
+    r = s.check()
+    out.append(("step/tails-agree-implies-lists-agree", "discharged" if r == z3.unsat else "refuted" if r == z3.sat else "unknown", {"backend": "z3"}))
+    forms = ["release", "label", "label.n"]
+    for k in range(1, 6):
+        bad = None
+        for fv in forms:
+            for fw in forms:
+                rv = [z3.Int(f"rv{i}") for i in range(k)]
+                rw = [z3.Int(f"rw{i}") for i in range(k)]
+                lv, nv, lw, nw = z3.Int("lv"), z3.Int("nv"), z3.Int("lw"), z3.Int("nw")
+                def mk(r, form, l, n):
+                    if form == "release":
+                        return list(r), None
+                    if form == "label":
+                        return list(r) + [l], (l, z3.IntVal(0))
+                    return list(r) + [l, n], (l, n)
+                Lv, pv = mk(rv, fv, lv, nv)
+                Lw, pw = mk(rw, fw, lw, nw)
+                unfold_prec = _prec_lt(k + 1, [r0] + rv, pv, [r1] + rw, pw) == z3.Or(r0 < r1, z3.And(r0 == r1, _prec_lt(k, rv, pv, rw, pw)))
+                unfold_zlex = _zlex_lt([r0] + Lv, [r1] + Lw) == z3.Or(r0 < r1, z3.And(r0 == r1, _zlex_lt(Lv, Lw)))
+                s = z3.Solver()
+                s.set("timeout", 20000)
+                s.add(z3.Not(z3.And(unfold_prec, unfold_zlex)))
+                if s.check() != z3.unsat:
+                    bad = bad or f"{fv}-vs-{fw}"
+        out.append((f"unfolding-identities/fields={k}+1", "discharged" if bad is None else "refuted", {"backend": "z3", "model": bad}))
+    return out
+
+
+Lemma("C20", "ordering-induction", ordering_induction, "induction on the number of numeric fields: the ordering lemma for ANY number of fields")
+
+
 def monotonicity_lemma(cfg):
     """(M,m,p,t) <lex (M',m',p',t') and m,p,t,m',p',t' < 256  =>  seq < seq'   with seq = M*2^24 + m*2^16 + p*2^8 + t."""
     v = [z3.Int(n) for n in ("M", "m", "p", "t")]
